@@ -42,7 +42,7 @@ def fields_diff(exp: Dict[str, Any], got: Dict[str, Any]) -> List[str]:
 def expected_for_port(run, port: int) -> List[Dict[str, Any]]:
     out = []
     for a in run.arrivals.get(port, []):
-        if a["owner"] != "app":
+        if a["owner"] != "app" or a.get("owner_id") not in (None, ("bridge", 0)):
             continue
         cls = classify(a["payload"])
         e = {"class": cls, "tag": a["tag"], "arrival": a, "done": False}
@@ -57,9 +57,17 @@ def match_callbacks(run, prop: str, c: Dict[str, int]) -> List[Viol]:
     port).  First an exact search for such an assignment (needed when the same broadcast is pending on several
     ports); only if none exists is the greedy matcher used, to name what went wrong."""
     exp = {p: expected_for_port(run, p) for p in run.ports}
-    cbs = run.callbacks
+    cbs = [cb for cb in run.callbacks if cb.get("bridge", 0) == 0]
     valid_idx = {p: [j for j, e in enumerate(exp[p]) if e["class"] == "valid"] for p in run.ports}
-    n_grey = sum(1 for p in run.ports for e in exp[p] if e["class"] == "grey")
+    # a grey arrival (gate passes, known model, some field outside its domain) may or may not produce a device;
+    # if it does, the device carries that arrival's class and id
+    grey_idents = []
+    for p in run.ports:
+        for e in exp[p]:
+            if e["class"] == "grey":
+                pl = e["arrival"]["payload"]
+                grey_idents.append((codecs.CATEGORY_CLASS[codecs.MODELS[pl[74:76].hex()][2]], pl[18:21].hex()))
+    n_grey = tuple(sorted(grey_idents))
     budget = [20000]
 
     def ident(dev):
@@ -89,10 +97,12 @@ def match_callbacks(run, prop: str, c: Dict[str, int]) -> List[Viol]:
             rest = solve(i + 1, pos[:k] + (pos[k] + 1,) + pos[k + 1:], greys_left, strict)
             if rest is not None:
                 return ([(e, got, d)] if d else []) + rest
-        if not tried and greys_left:
-            known = any(ident(e["dev"]) == ident(got) for p in run.ports for e in exp[p] if e["class"] == "valid")
-            if not known:
-                return solve(i + 1, pos, greys_left - 1, strict)
+        if ident(got) in greys_left:
+            gl = list(greys_left)
+            gl.remove(ident(got))
+            rest = solve(i + 1, pos, tuple(gl), strict)
+            if rest is not None:
+                return rest
         return None
 
     # the same device may broadcast again with other values: first look for an assignment in which every callback
@@ -220,6 +230,19 @@ def judge_c07(scn, run) -> Tuple[List[Viol], Dict[str, int]]:
     if len({a["port"] for a in run.arrival_order}) > 1:
         cnt(c, "probe:multi-port")
     v = match_callbacks(run, "C07", c)
+    # the bridge is started first and never stopped in these runs: every datagram sent to one of its ports must
+    # find its socket (unless the receive queue was full)
+    started = any(a["kind"] in ("start", "aenter") and a.get("bridge", 0) == 0 and a["outcome"][0] == "ok" for a in run.actions)
+    stopped = any(a["kind"] in ("stop", "aexit") and a.get("bridge", 0) == 0 for a in run.actions)
+    if started and not stopped:
+        for a in run.arrival_order:
+            if a["port"] in run.ports and a["fd"] is None and not a.get("overflow"):
+                v.append(("C07/arrival-found-no-socket",
+                          "a datagram for port %d found no socket of the running bridge (is_running=%s)" % (
+                              a["port"], getattr(run, "final_running", None))))
+                break
+    if len(getattr(run, "bridge_ports", [])) > 1:
+        cnt(c, "probe:second-bridge-object")
     # nothing may be delivered once the last arrival has been drained
     if len(run.callbacks) != getattr(run, "final_callbacks", len(run.callbacks)):
         v.append(("C07/late-delivery", "%d callback(s) arrived after the network was quiet" % (
@@ -290,22 +313,29 @@ def judge_c06(scn, run) -> Tuple[List[Viol], Dict[str, int]]:
 def judge_c17(scn, run) -> Tuple[List[Viol], Dict[str, int]]:
     v: List[Viol] = []
     c: Dict[str, int] = {}
-    ports = sorted(run.ports)
-    running = False
-    # intervals in which callbacks are legitimate: [seq0 of a successful start, seq1 of the next stop]
-    intervals: List[List[Optional[int]]] = []
-    run_windows: List[List[Optional[int]]] = []       # [mono of start return, mono of next stop invoke]
+    nb = len(getattr(run, "bridge_ports", [run.ports]))
+    bports = [sorted(set(p)) for p in getattr(run, "bridge_ports", [run.ports])]
+    running = [False] * nb
+    # per bridge: intervals (by log sequence) in which callbacks are legitimate, and running windows (by time)
+    intervals: List[List[List[Optional[int]]]] = [[] for _ in range(nb)]
+    run_windows: List[List[List[Optional[int]]]] = [[] for _ in range(nb)]
+    stopped_before = [False] * nb
+    if nb > 1:
+        cnt(c, "probe:several-bridge-objects")
     for act in run.actions:
         k = act["kind"]
         if k in ("occupy", "release"):
             cnt(c, "probe:" + k)
             continue
+        b = act.get("bridge", 0)
+        ports = bports[b]
+        tagb = "" if nb == 1 else "/bridge%d" % b
         cnt(c, "judged-actions")
         if k in ("start", "aenter"):
             busy = sorted(set(act["foreign"]) & set(ports))
-            if busy:
+            if busy and not running[b]:
                 cnt(c, "probe:start-with-busy-port")
-                which = "first" if busy[0] == run.ports[0] else "later"
+                which = "first" if busy[0] == run.bridge_ports[b][0] else "later"
                 if act["outcome"][0] != "exc" or "OSError" not in act["outcome"][3]:
                     v.append(("C17/busy-port-not-raised", "%s with port %s busy ended with %r" % (k, busy, act["outcome"][:2])))
                 if act["held"]:
@@ -313,43 +343,40 @@ def judge_c17(scn, run) -> Tuple[List[Viol], Dict[str, int]]:
                               "%s failed on busy port %s but ports %s are still bound by the bridge" % (k, busy, act["held"])))
                 if act["running"] or act["running_at_return"]:
                     v.append(("C17/running-after-failed-start", "is_running is True after a failed %s" % k))
-                intervals.append([act["seq0"], act["seq1"]])
-                running = False
+                intervals[b].append([act["seq0"], act["seq1"]])
+            elif running[b]:
+                # start on a running bridge: either it refuses (then, like any failed start, nothing may be
+                # left listening) or it is idempotent (then it must still be running on all ports)
+                cnt(c, "probe:start-while-running")
+                if act["outcome"][0] == "exc":
+                    if act["held"] or act["running"] or act["running_at_return"]:
+                        v.append(("C17/failed-start-left-ports/start-while-running",
+                                  "%s on a running bridge raised %s; afterwards is_running=%s and ports %s are still bound" % (
+                                      k, act["outcome"][1], act["running"], act["held"])))
+                    intervals[b][-1][1] = act["seq1"]
+                    run_windows[b][-1][1] = act["mono0"]
+                    running[b] = False
+                elif not act["running"] or act["held"] != ports:
+                    v.append(("C17/start-while-running-inconsistent",
+                              "%s on a running bridge returned; is_running=%s, ports held %s of %s" % (
+                                  k, act["running"], act["held"], ports)))
+            elif act["outcome"][0] != "ok":
+                v.append(("C17/start-failed/%s" % act["outcome"][1],
+                          "%s with all ports free raised %s(%s)" % (k, act["outcome"][1], act["outcome"][2])))
+                intervals[b].append([act["seq0"], act["seq1"]])
             else:
-                if running:
-                    # start on a running bridge: either it refuses (then, like any failed start, nothing may be
-                    # left listening) or it is idempotent (then it must still be running on all ports)
-                    cnt(c, "probe:start-while-running")
-                    if act["outcome"][0] == "exc":
-                        if act["held"] or act["running"] or act["running_at_return"]:
-                            v.append(("C17/failed-start-left-ports/start-while-running",
-                                      "%s on a running bridge raised %s; afterwards is_running=%s and ports %s are still bound" % (
-                                          k, act["outcome"][1], act["running"], act["held"])))
-                        intervals[-1][1] = act["seq1"]
-                        run_windows[-1][1] = act["mono0"]
-                        running = False
-                    else:
-                        if not act["running"] or act["held"] != ports:
-                            v.append(("C17/start-while-running-inconsistent",
-                                      "%s on a running bridge returned; is_running=%s, ports held %s of %s" % (
-                                          k, act["running"], act["held"], ports)))
-                    continue
-                if act["outcome"][0] != "ok":
-                    v.append(("C17/start-failed/%s" % act["outcome"][1],
-                              "%s with all ports free raised %s(%s)" % (k, act["outcome"][1], act["outcome"][2])))
-                    intervals.append([act["seq0"], act["seq1"]])
-                    continue
-                if intervals and intervals[-1][1] is not None and any(a["kind"] in ("stop", "aexit") for a in run.actions[:run.actions.index(act)]):
+                if stopped_before[b]:
                     cnt(c, "probe:restart")
-                running = True
-                intervals.append([act["seq0"], None])
-                run_windows.append([act["mono1"], None])
+                running[b] = True
+                intervals[b].append([act["seq0"], None])
+                run_windows[b].append([act["mono1"], None])
                 if not (act["running"] and act["running_at_return"]):
                     v.append(("C17/not-running-after-start", "is_running is False after a successful %s" % k))
                 if act["held"] != ports:
                     v.append(("C17/ports-not-bound", "after %s the bridge holds %s of %s" % (k, act["held"], ports)))
         else:  # stop / aexit
-            if not running:
+            stopped_before[b] = True
+            if not running[b]:
                 cnt(c, "probe:stop-while-stopped")
             if act["outcome"][0] != "ok":
                 v.append(("C17/stop-raised/%s" % act["outcome"][1], "%s raised %s(%s)" % (k, act["outcome"][1], act["outcome"][2])))
@@ -357,15 +384,24 @@ def judge_c17(scn, run) -> Tuple[List[Viol], Dict[str, int]]:
                 v.append(("C17/running-after-stop", "is_running is True after %s" % k))
             if act["held"]:
                 v.append(("C17/ports-left-bound", "after %s and 3 loop cycles ports %s are still bound" % (k, act["held"])))
-            if running:
-                intervals[-1][1] = act["seq1"]
-                run_windows[-1][1] = act["mono0"]
-            running = False
+            if running[b]:
+                intervals[b][-1][1] = act["seq1"]
+                run_windows[b][-1][1] = act["mono0"]
+            running[b] = False
+        # an action on one bridge object must leave every other bridge object as it was
+        for o in act.get("others", []):
+            ob = o["bridge"]
+            want_held = bports[ob] if running[ob] else []
+            if o["running"] != running[ob] or o["held"] != want_held:
+                v.append(("C17/other-bridge-disturbed/%s" % k,
+                          "%s on bridge %d left bridge %d with is_running=%s holding %s; it should be %s holding %s" % (
+                              k, b, ob, o["running"], o["held"], running[ob], want_held)))
     for cb in run.callbacks:
-        ok = any(lo <= cb["seq"] and (hi is None or cb["seq"] <= hi) for lo, hi in intervals)
+        b = cb.get("bridge", 0)
+        ok = any(lo <= cb["seq"] and (hi is None or cb["seq"] <= hi) for lo, hi in intervals[b])
         if not ok:
-            last = max([a for a in run.actions if a.get("seq1") is not None and a["seq1"] < cb["seq"]],
-                       key=lambda a: a["seq1"], default=None)
+            mine = [a for a in run.actions if a.get("bridge", 0) == b and a.get("seq1") is not None and a["seq1"] < cb["seq"]]
+            last = max(mine, key=lambda a: a["seq1"], default=None)
             after = last["kind"] if last else "nothing"
             if last and last["kind"] in ("start", "aenter") and last["outcome"][0] == "exc":
                 after = "failed-start"
@@ -373,24 +409,27 @@ def judge_c17(scn, run) -> Tuple[List[Viol], Dict[str, int]]:
                       "callback %d (id %s) was made while the bridge was not running (last action: %s)" % (
                           cb["n"], cb["dev"].get("device_id"), after)))
             break
-    # broadcasts that reached the bridge comfortably inside a running window must be delivered
-    delivered_ids = [cb["dev"].get("device_id") for cb in run.callbacks]
-    for a in run.arrival_order:
-        if classify(a["payload"]) != "valid":
-            continue
-        inside = any(lo < a["mono_us"] and (hi is None or a["mono_us"] < hi - 1000) for lo, hi in run_windows)
-        if inside:
-            cnt(c, "judged-deliveries")
-            if a["owner"] != "app":
-                v.append(("C17/not-listening-while-running", "a broadcast to port %d found no bridge socket while running" % a["port"]))
-            elif a["payload"][18:21].hex() not in delivered_ids:
-                v.append(("C17/missing-delivery", "a broadcast that arrived while running was never delivered"))
+    # broadcasts that reached a port comfortably inside a running window of the bridge owning it must be delivered
+    for b in range(nb):
+        delivered_ids = [cb["dev"].get("device_id") for cb in run.callbacks if cb.get("bridge", 0) == b]
+        for a in run.arrival_order:
+            if classify(a["payload"]) != "valid" or a["port"] not in bports[b]:
+                continue
+            inside = any(lo < a["mono_us"] and (hi is None or a["mono_us"] < hi - 1000) for lo, hi in run_windows[b])
+            if inside:
+                cnt(c, "judged-deliveries")
+                if not (a["owner"] == "app" and a.get("owner_id") == ("bridge", b)):
+                    v.append(("C17/not-listening-while-running", "a broadcast to port %d found no socket of the running bridge" % a["port"]))
+                elif a["payload"][18:21].hex() not in delivered_ids:
+                    v.append(("C17/missing-delivery", "a broadcast that arrived while running was never delivered"))
     cnt(c, "judged-iteration-samples", getattr(run, "running_samples", 0))
     for smp in getattr(run, "running_but_not_listening", [])[:1]:
         v.append(("C17/running-while-not-listening-on-all-ports",
-                  "is_running was True at a moment when the bridge held only ports %s of %s" % (smp["held"], ports)))
-    if getattr(run, "final_held", []) and not running:
-        v.append(("C17/ports-left-bound-at-end", "ports %s still bound at the end" % run.final_held))
+                  "is_running was True at a moment when bridge %d held only ports %s of %s" % (
+                      smp.get("bridge", 0), smp["held"], bports[smp.get("bridge", 0)])))
+    for b, st in enumerate(getattr(run, "final_state", [])):
+        if st["held"] and not running[b]:
+            v.append(("C17/ports-left-bound-at-end", "ports %s still bound at the end" % st["held"]))
     return v, c
 
 
